@@ -28,94 +28,143 @@ def WholeFinalPlace (w : World) (md : Maildir) (name content : Bytes) (ml : Matc
       w'.lookup md.path name = none ∧ w.lookup (World.finalDir ml md.path) n = none) ∧
     ∀ q m, (q, m) ≠ (md.path, name) → (q, m) ≠ (World.finalDir ml md.path, n) → w'.lookup q m = w.lookup q m
 
+/-- What `processMessage` on a registered, completely stored message establishes when it returns without the error bit, for the
+verdict `v` of the rules in that run: an action list (without discard) - the message is at its final place; no match - the registry
+is as it was; an error verdict does not occur. -/
+def WholeExit0V (w : World) (md : Maildir) (name content : Bytes) (st : MainSt) (r : MainSt × Maildir) (w' : World) : Verdict → Prop
+  | .act ml msgs _ => WholeFinalPlace w md name content ml (msgs 0) r w'
+  | .nomatch => r.1.files = st.files
+  | _ => False
+
 theorem whole_sf_processMessage (env : PEnv) (orc : EvalOracles) (expr : Expr) (md : Maildir) (name : Bytes) (st : MainSt)
-    {w : World} {d : Handle} {content : Bytes} {fid : Nat} {ml : MatchList} {msgs : Nat → Msg} {fl : MFlags}
+    {w : World} {d : Handle} {content : Bytes} {fid : Nat}
     (hd : md.dirH = some d) (hp : w.dirPath d = some md.path)
     (hwf : pathjoin PATH_MAX md.root (subdirName md.subdir) = some md.path)
     (hfc : st.files.get md.path name = some content)
     (hl : w.lookup md.path name = some fid) (hf : w.file fid = some ⟨content, content⟩) (hc : WholeClean w)
-    (hvd : verdict env orc expr md.path name content = .act ml msgs fl) (hml : NoDiscard ml)
-    (hdry : env.dryrun = false) (b : Bool) :
+    (hnd : WholeNoDiscard env orc expr) (hdry : env.dryrun = false) (b : Bool) :
     wpS (processMessage env orc expr md name st)
-      (fun _ r w' => r.1.error = false → WholeFinalPlace w md name content ml (msgs 0) r w') b w := by
+      (fun _ r w' => r.1.error = false →
+        ∃ as, WholeExit0V w md name content st r w' (verdictA env orc expr md.path name content as)) b w := by
   rw [processMessage_eq env orc expr md name st d content hd hfc]
-  refine wpS_bind_mono (wpS_of_wp b (whole_wp_all (whole_start_of_parse_wp md d name content w fid hd hp hwf hl hf hc)
+  refine wpS_bind_mono (wpS_of_wp b (whole_wp_all (World.whole_messageParseP d md.path name content hp hl)
     (all_messageParseP_as d md.path name content))) ?_
-  rintro b1 pm w0 ⟨⟨pf, hst⟩, hpa⟩
+  rintro b1 pm w00 ⟨⟨pf00, hms⟩, hpa⟩
   cases pm with
   | none =>
     intro he
     cases he
   | some ms =>
-    have hv := msVerdict_of_parsed env orc expr md.path name content ms hpa
-    simp only [afterParse, hv, hvd, afterVerdict, hdry, Bool.false_eq_true, if_false]
-    have hS := hst ms rfl (msgs 0) fl
-    obtain ⟨sh, fid0, hA⟩ := hS.at
-    have hname : ms.name = name := by
-      obtain ⟨p, mf, _, _, _, h1, _⟩ := hpa ms rfl
-      exact h1
-    refine wpS_bind_mono (World.sf_matchesExec env ml _ hA hml b1) ?_
-    rintro b2 x w1 ⟨nb, hloc, dl, hmsg, hcont, hfin⟩
-    refine wpS_bind_mono (R := fun _ _ w2 => Located w2 x.1.ms nb ∧
-        Delta w0 w2 (md.path, ms.name) nb) ?_ ?_
-    · unfold freeP
+    simp only [afterParse]
+    obtain ⟨h1, h2, h3, h4, h5', -⟩ := hms ms rfl
+    refine wpS_bind_mono (wpS_of_wp b1 (World.wp_evalFoot (msgEnv env orc ms.path) expr ms.msg ms.flags w00)) ?_
+    rintro b1' ev w0 ⟨ef, as, hev⟩
+    have pf : WholePF w w0 := pf00.of_evalFoot ef
+    have h5 : w.handles.length < w0.handles.length := Nat.lt_of_lt_of_le h5' ef.len
+    have hv : evVerdict env orc ms ev = verdictA env orc expr md.path name content as := by
+      rw [hev]; exact msVerdictA_of_parsed env orc expr md.path name content ms hpa as
+    rw [hv]
+    -- closing the descriptor when nothing is executed
+    have freeS : ∀ (ms' : MsgSt) (r : MainSt × Maildir) (Q : Prop), (r.1.error = false → Q) →
+        wpS ((freeP ms').bind fun _ => Prog.ret r) (fun _ r' _ => r'.1.error = false → Q) b1' w0 := by
+      intro ms' r Q hQ
+      unfold freeP
       split
-      · rename_i h _
-        simp only [call_bind]
-        refine wpS_call_any fun r _ => ?_
-        exact ⟨hloc.step _ r rfl (fun _ => trivial), dl.step _ r rfl (fun _ _ => trivial)⟩
-      · exact ⟨hloc, dl⟩
-    · rintro b3 _ w2 ⟨hloc2, dl2⟩
-      intro he
-      have he2 : x.2 = false := by
-        simp only [Bool.or_eq_false_iff] at he
-        exact he.2
-      obtain ⟨hdir, hrw⟩ := hfin he2
-      obtain ⟨hl2, fid2, hlk2, _, hf2⟩ := hloc2
-      obtain ⟨p, n⟩ := nb
-      simp only at hdir
-      subst hdir
-      have hlkw : ∀ x, lk w0 x = lk w x := fun x => World.lookup_of_dirs pf.dirs x.1 x.2
-      refine ⟨n, fid2, x.1.ms.content, ?_, hlk2, hf2, ?_, ?_, ?_, ?_⟩
-      · show (afterExec _ md.path name x.1.ms).get _ n = some _
-        unfold afterExec
-        rw [hl2, Files.whole_get_put]
-        simp
-      · intro h; exact hrw h
-      · rcases hcont with h | h
-        · left; rw [h]; exact hS.content
-        · right; exact h
-      · intro hne
-        have hne' : (md.path, ms.name) ≠ (World.finalDir ml md.path, n) := by
-          rw [hname]; exact fun h => hne h.symm
-        refine ⟨?_, ?_⟩
-        · have := dl2.gone hne'
-          rw [hname] at this
-          exact this
-        · have := dl2.fresh hne'
+      · simp only [call_bind]
+        exact wpS_call_any fun _ _ => hQ
+      · exact hQ
+    cases hvd : verdictA env orc expr md.path name content as with
+    | unparsable =>
+      simp only [afterVerdict]
+      refine World.wpS_mono (freeS ms _ False (by intro he; cases he)) ?_
+      intro _ _ _ h he; exact (h he).elim
+    | error =>
+      simp only [afterVerdict]
+      refine World.wpS_mono (freeS ms _ False (by intro he; cases he)) ?_
+      intro _ _ _ h he; exact (h he).elim
+    | interpFail =>
+      simp only [afterVerdict]
+      refine World.wpS_mono (freeS ms _ False (by intro he; cases he)) ?_
+      intro _ _ _ h he; exact (h he).elim
+    | «nomatch» =>
+      simp only [afterVerdict]
+      unfold freeP
+      split
+      · simp only [call_bind]
+        exact wpS_call_any fun _ _ _ => ⟨as, by rw [hvd]; rfl⟩
+      · exact fun _ => ⟨as, by rw [hvd]; rfl⟩
+    | act ml msgs fl =>
+      have hml : NoDiscard ml := hnd md.path name content as ml msgs fl hvd
+      simp only [afterVerdict, hdry, Bool.false_eq_true, if_false]
+      have hS := whole_startAt_of_pf md d name content w w0 fid hd hp hwf hl hf hc pf ms h1 h2 h3 h4 h5 (msgs 0) fl
+      obtain ⟨sh, fid0, hA⟩ := hS.at
+      have hname : ms.name = name := h1
+      refine wpS_bind_mono (World.sf_matchesExec env ml _ hA hml b1') ?_
+      rintro b2 x w1 ⟨nb, hloc, dl, hmsg, hcont, hfin⟩
+      refine wpS_bind_mono (R := fun _ _ w2 => Located w2 x.1.ms nb ∧
+          Delta w0 w2 (md.path, ms.name) nb) ?_ ?_
+      · unfold freeP
+        split
+        · rename_i h _
+          simp only [call_bind]
+          refine wpS_call_any fun r _ => ?_
+          exact ⟨hloc.step _ r rfl (fun _ => trivial), dl.step _ r rfl (fun _ _ => trivial)⟩
+        · exact ⟨hloc, dl⟩
+      · rintro b3 _ w2 ⟨hloc2, dl2⟩
+        intro he
+        refine ⟨as, ?_⟩
+        rw [hvd]
+        have he2 : x.2 = false := by
+          simp only [Bool.or_eq_false_iff] at he
+          exact he.2
+        obtain ⟨hdir, hrw⟩ := hfin he2
+        obtain ⟨hl2, fid2, hlk2, _, hf2⟩ := hloc2
+        obtain ⟨p, n⟩ := nb
+        simp only at hdir
+        subst hdir
+        have hlkw : ∀ x, lk w0 x = lk w x := fun x => World.lookup_of_dirs pf.dirs x.1 x.2
+        refine ⟨n, fid2, x.1.ms.content, ?_, hlk2, hf2, ?_, ?_, ?_, ?_⟩
+        · show (afterExec _ md.path name x.1.ms).get _ n = some _
+          unfold afterExec
+          rw [hl2, Files.whole_get_put]
+          simp
+        · intro h; exact hrw h
+        · rcases hcont with h | h
+          · left; rw [h]; exact hS.content
+          · right; exact h
+        · intro hne
+          have hne' : (md.path, ms.name) ≠ (World.finalDir ml md.path, n) := by
+            rw [hname]; exact fun h => hne h.symm
+          refine ⟨?_, ?_⟩
+          · have := dl2.gone hne'
+            rw [hname] at this
+            exact this
+          · have := dl2.fresh hne'
+            rw [hlkw] at this
+            exact this
+        · intro q m h1' h2'
+          have := dl2.others (q, m) (by rw [hname]; exact h1') h2'
           rw [hlkw] at this
           exact this
-      · intro q m h1 h2
-        have := dl2.others (q, m) (by rw [hname]; exact h1) h2
-        rw [hlkw] at this
-        exact this
 
-/-- **No error bit means final place** (`runPlan` form, at most one fault): if `processMessage` on
-a registered, completely stored message on which the rules act (list `ml` without discard, not a dry
-run) returns a state without the error flag, the message is at its final place. -/
+/-- **No error bit means final place** (`runPlan` form, at most one fault - which may also hit a call of evaluation): if
+`processMessage` on a registered, completely stored message (rules that never discard, not a dry run) returns a state without the
+error flag, then for SOME answers `as` of the operating system to the questions of evaluation (those of the run; irrelevant for a
+rule tree without `command` / `isdirectory` / file-time `date` conditions) the verdict `verdictA … as` is not an error, and if it is
+an action list the message is at its final place (`WholeFinalPlace`); if it is "no match" the registry is unchanged. -/
 theorem whole_message_exit0 (env : PEnv) (orc : EvalOracles) (expr : Expr) (md : Maildir) (name : Bytes) (st : MainSt)
-    (w : World) (plan : Plan) {d : Handle} {content : Bytes} {fid : Nat} {ml : MatchList} {msgs : Nat → Msg} {fl : MFlags}
+    (w : World) (plan : Plan) {d : Handle} {content : Bytes} {fid : Nat}
     (hd : md.dirH = some d) (hp : w.dirPath d = some md.path)
     (hwf : pathjoin PATH_MAX md.root (subdirName md.subdir) = some md.path)
     (hfc : st.files.get md.path name = some content)
     (hl : w.lookup md.path name = some fid) (hf : w.file fid = some ⟨content, content⟩) (hc : WholeClean w)
-    (hvd : verdict env orc expr md.path name content = .act ml msgs fl) (hml : NoDiscard ml)
+    (hnd : WholeNoDiscard env orc expr)
     (hdry : env.dryrun = false) (hpl : SingleFault plan)
     (he : (runPlan plan (processMessage env orc expr md name st) w 0 []).1.1.error = false) :
-    WholeFinalPlace w md name content ml (msgs 0) (runPlan plan (processMessage env orc expr md name st) w 0 []).1
-      (runPlan plan (processMessage env orc expr md name st) w 0 []).2.1 := by
+    ∃ as, WholeExit0V w md name content st (runPlan plan (processMessage env orc expr md name st) w 0 []).1
+      (runPlan plan (processMessage env orc expr md name st) w 0 []).2.1 (verdictA env orc expr md.path name content as) := by
   rw [World.runPlan_eq] at he ⊢
-  obtain ⟨b', h⟩ := wpS_sound plan (whole_sf_processMessage env orc expr md name st hd hp hwf hfc hl hf hc hvd hml hdry true)
+  obtain ⟨b', h⟩ := wpS_sound plan (whole_sf_processMessage env orc expr md name st hd hp hwf hfc hl hf hc hnd hdry true)
     hpl.budget
   exact h he
 
